@@ -2,7 +2,7 @@
     The same function is extracted to OCaml (ocaml/modelrun) and can be evaluated inside Coq. *)
 From Coq Require Import Strings.String Strings.Byte.
 From Coq Require Import List Arith NArith ZArith Bool.
-From PV Require Import Base.Bytes Base.Outcome Base.KV Compkey.Model Aol.Model Bank.Model Chain.Model Driver.Tok.
+From PV Require Import Base.Bytes Base.Outcome Base.KV Compkey.Model Aol.Model Bank.Model Did.Model Chain.Model Driver.Tok.
 Import ListNotations.
 
 Record pending := {
@@ -17,31 +17,37 @@ Record dstate := {
   d_fee_collector : bytes;
   d_blocked : list bytes;
   d_tx : option pending;
+  d_docs : list (bytes * did_doc);          (* document literals by reference name *)
+  d_keys58 : list (bytes * bytes);          (* base58 string -> 33-byte secp256k1 key (absent = not a key) *)
+  d_sigs : list (bytes * (bytes * bytes));  (* valid signatures: key, (signed bytes, signature) *)
 }.
-
-Definition empty_chain : chain :=
-  {| c_aol := []; c_bank := {| balances := []; supply := [] |}; c_grants := [] |}.
 
 Definition dinit : dstate :=
   {| d_unbech := []; d_bech := []; d_chain := empty_chain; d_now := 0%Z; d_fee_collector := []; d_blocked := [];
-     d_tx := None |}.
+     d_tx := None; d_docs := []; d_keys58 := []; d_sigs := [] |}.
 
 Definition upd_tables (st : dstate) (u : list (bytes * bytes)) (bb : list (bytes * bytes)) : dstate :=
   {| d_unbech := u; d_bech := bb; d_chain := d_chain st; d_now := d_now st; d_fee_collector := d_fee_collector st;
-     d_blocked := d_blocked st; d_tx := d_tx st |}.
+     d_blocked := d_blocked st; d_tx := d_tx st; d_docs := d_docs st; d_keys58 := d_keys58 st; d_sigs := d_sigs st |}.
 Definition upd_chain (st : dstate) (c : chain) : dstate :=
   {| d_unbech := d_unbech st; d_bech := d_bech st; d_chain := c; d_now := d_now st; d_fee_collector := d_fee_collector st;
-     d_blocked := d_blocked st; d_tx := d_tx st |}.
+     d_blocked := d_blocked st; d_tx := d_tx st; d_docs := d_docs st; d_keys58 := d_keys58 st; d_sigs := d_sigs st |}.
 Definition upd_tx (st : dstate) (t : option pending) : dstate :=
   {| d_unbech := d_unbech st; d_bech := d_bech st; d_chain := d_chain st; d_now := d_now st; d_fee_collector := d_fee_collector st;
-     d_blocked := d_blocked st; d_tx := t |}.
+     d_blocked := d_blocked st; d_tx := t; d_docs := d_docs st; d_keys58 := d_keys58 st; d_sigs := d_sigs st |}.
 Definition upd_env (st : dstate) (now : Z) (fc : bytes) (bl : list bytes) : dstate :=
   {| d_unbech := d_unbech st; d_bech := d_bech st; d_chain := d_chain st; d_now := now; d_fee_collector := fc;
-     d_blocked := bl; d_tx := d_tx st |}.
+     d_blocked := bl; d_tx := d_tx st; d_docs := d_docs st; d_keys58 := d_keys58 st; d_sigs := d_sigs st |}.
 
 Definition unbech_of (st : dstate) (s : bytes) : option bytes := lookup s (d_unbech st).
 Definition bech_of (st : dstate) (a : bytes) : bytes :=
   match lookup a (d_bech st) with Some s => s | None => b "?" ++ to_hex a end.
+
+Definition upd_did_tables (st : dstate) (docs : list (bytes * did_doc)) (k58 : list (bytes * bytes))
+           (sigs : list (bytes * (bytes * bytes))) : dstate :=
+  {| d_unbech := d_unbech st; d_bech := d_bech st; d_chain := d_chain st; d_now := d_now st;
+     d_fee_collector := d_fee_collector st; d_blocked := d_blocked st; d_tx := d_tx st;
+     d_docs := docs; d_keys58 := k58; d_sigs := sigs |}.
 
 (** ** compkey commands *)
 Definition kind_of_tok (t : tok) : option key_kind :=
@@ -159,9 +165,167 @@ Definition ck_cmd (st : dstate) (ts : list tok) : list bytes :=
   end.
 
 
+
+(** ** DID documents, tables, messages *)
+Fixpoint update_assoc {A} (k : bytes) (f : A -> A) (l : list (bytes * A)) : list (bytes * A) :=
+  match l with
+  | [] => []
+  | (k', v) :: r => if bytes_eqb k k' then (k', f v) :: r else (k', v) :: update_assoc k f r
+  end.
+
+Definition set_rel (which : tok) (r : vrel) (d : did_doc) : option did_doc :=
+  let mk a s k ci cd :=
+    {| doc_contexts := doc_contexts d; doc_id := doc_id d; doc_controller := doc_controller d; doc_vms := doc_vms d;
+       doc_auth := a; doc_assert := s; doc_keyagree := k; doc_capinv := ci; doc_capdel := cd;
+       doc_services := doc_services d |} in
+  if tok_is which "auth" then Some (mk (doc_auth d ++ [r]) (doc_assert d) (doc_keyagree d) (doc_capinv d) (doc_capdel d))
+  else if tok_is which "assert" then Some (mk (doc_auth d) (doc_assert d ++ [r]) (doc_keyagree d) (doc_capinv d) (doc_capdel d))
+  else if tok_is which "keyagree" then Some (mk (doc_auth d) (doc_assert d) (doc_keyagree d ++ [r]) (doc_capinv d) (doc_capdel d))
+  else if tok_is which "capinv" then Some (mk (doc_auth d) (doc_assert d) (doc_keyagree d) (doc_capinv d ++ [r]) (doc_capdel d))
+  else if tok_is which "capdel" then Some (mk (doc_auth d) (doc_assert d) (doc_keyagree d) (doc_capinv d) (doc_capdel d ++ [r]))
+  else None.
+
+Definition doc_cmd (st : dstate) (cmd : tok) (args : list tok) : option (dstate * list bytes) :=
+  let upd ref f := Some (upd_did_tables st (update_assoc ref f (d_docs st)) (d_keys58 st) (d_sigs st), []) in
+  match args with
+  | ref :: rest =>
+      match map_opt bytes_of_tok rest with
+      | None => if tok_is cmd "DREL" then
+                  (* DREL ref which ref|ded fields... : which/kind are plain words *)
+                  match rest with
+                  | which :: kind :: fields =>
+                      match map_opt bytes_of_tok fields with
+                      | Some [id] =>
+                          if tok_is kind "ref" then
+                            match lookup ref (d_docs st) with
+                            | Some d => match set_rel which (VRef id) d with
+                                        | Some d' => upd ref (fun _ => d') | None => Some (st, bad) end
+                            | None => Some (st, bad) end
+                          else Some (st, bad)
+                      | Some [id; ty; ct; pk] =>
+                          if tok_is kind "ded" then
+                            match lookup ref (d_docs st) with
+                            | Some d => match set_rel which (VDed {| vm_id := id; vm_type := ty; vm_controller := ct; vm_pubkey58 := pk |}) d with
+                                        | Some d' => upd ref (fun _ => d') | None => Some (st, bad) end
+                            | None => Some (st, bad) end
+                          else Some (st, bad)
+                      | _ => Some (st, bad)
+                      end
+                  | _ => Some (st, bad)
+                  end
+                else None
+      | Some a =>
+          if tok_is cmd "DOC" then
+            match a with
+            | [id] => Some (upd_did_tables st ((ref, {| doc_contexts := None; doc_id := id; doc_controller := None;
+                                                        doc_vms := []; doc_auth := []; doc_assert := []; doc_keyagree := [];
+                                                        doc_capinv := []; doc_capdel := []; doc_services := [] |}) :: d_docs st)
+                                           (d_keys58 st) (d_sigs st), [])
+            | _ => Some (st, bad)
+            end
+          else if tok_is cmd "DCTX" then
+            upd ref (fun d => {| doc_contexts := Some a; doc_id := doc_id d; doc_controller := doc_controller d; doc_vms := doc_vms d;
+                                 doc_auth := doc_auth d; doc_assert := doc_assert d; doc_keyagree := doc_keyagree d;
+                                 doc_capinv := doc_capinv d; doc_capdel := doc_capdel d; doc_services := doc_services d |})
+          else if tok_is cmd "DCTRL" then
+            upd ref (fun d => {| doc_contexts := doc_contexts d; doc_id := doc_id d; doc_controller := Some a; doc_vms := doc_vms d;
+                                 doc_auth := doc_auth d; doc_assert := doc_assert d; doc_keyagree := doc_keyagree d;
+                                 doc_capinv := doc_capinv d; doc_capdel := doc_capdel d; doc_services := doc_services d |})
+          else if tok_is cmd "DVM" then
+            match a with
+            | [id; ty; ct; pk] =>
+                upd ref (fun d => {| doc_contexts := doc_contexts d; doc_id := doc_id d; doc_controller := doc_controller d;
+                                     doc_vms := doc_vms d ++ [{| vm_id := id; vm_type := ty; vm_controller := ct; vm_pubkey58 := pk |}];
+                                     doc_auth := doc_auth d; doc_assert := doc_assert d; doc_keyagree := doc_keyagree d;
+                                     doc_capinv := doc_capinv d; doc_capdel := doc_capdel d; doc_services := doc_services d |})
+            | _ => Some (st, bad)
+            end
+          else if tok_is cmd "DSVC" then
+            match a with
+            | [id; ty; ep] =>
+                upd ref (fun d => {| doc_contexts := doc_contexts d; doc_id := doc_id d; doc_controller := doc_controller d;
+                                     doc_vms := doc_vms d; doc_auth := doc_auth d; doc_assert := doc_assert d;
+                                     doc_keyagree := doc_keyagree d; doc_capinv := doc_capinv d; doc_capdel := doc_capdel d;
+                                     doc_services := doc_services d ++ [{| sv_id := id; sv_type := ty; sv_endpoint := ep |}] |})
+            | _ => Some (st, bad)
+            end
+          else None
+      end
+  | [] => None
+  end.
+
+Definition did_table_cmd (st : dstate) (cmd : tok) (args : list tok) : option (dstate * list bytes) :=
+  if tok_is cmd "KEY58" then
+    match map_opt bytes_of_tok args with
+    | Some [s; k] => Some (upd_did_tables st (d_docs st) ((s, k) :: d_keys58 st) (d_sigs st), [])
+    | _ => Some (st, bad)
+    end
+  else if tok_is cmd "SIGT" then
+    match map_opt bytes_of_tok args with
+    | Some [k; m; sg] => Some (upd_did_tables st (d_docs st) (d_keys58 st) ((k, (m, sg)) :: d_sigs st), [])
+    | _ => Some (st, bad)
+    end
+  else None.
+
+(** canonical rendering of a document (the same printer exists on the Go side) *)
+Definition cat (sep : string) (xs : list bytes) : bytes := concat (map (fun x => b sep ++ x) xs).
+Definition vm_str (vm : vmethod) : bytes :=
+  join_with "/"%byte [tok_of_bytes (vm_id vm); tok_of_bytes (vm_type vm); tok_of_bytes (vm_controller vm); tok_of_bytes (vm_pubkey58 vm)].
+Definition rel_str (r : vrel) : bytes :=
+  match r with
+  | VRef id => b "r/" ++ tok_of_bytes id
+  | VDed vm => b "d/" ++ vm_str vm
+  end.
+Definition svc_str (s : service) : bytes :=
+  join_with "/"%byte [tok_of_bytes (sv_id s); tok_of_bytes (sv_type s); tok_of_bytes (sv_endpoint s)].
+Definition optl_str (o : option (list bytes)) : bytes :=
+  match o with None => b "none" | Some l => b "L" ++ cat "," (map tok_of_bytes l) end.
+Definition doc_str (d : did_doc) : bytes :=
+  join_with "|"%byte
+    [tok_of_bytes (doc_id d); optl_str (doc_contexts d); optl_str (doc_controller d);
+     b "L" ++ cat "," (map vm_str (doc_vms d));
+     b "L" ++ cat "," (map rel_str (doc_auth d)); b "L" ++ cat "," (map rel_str (doc_assert d));
+     b "L" ++ cat "," (map rel_str (doc_keyagree d)); b "L" ++ cat "," (map rel_str (doc_capinv d));
+     b "L" ++ cat "," (map rel_str (doc_capdel d));
+     b "L" ++ cat "," (map svc_str (doc_services d))].
+
+Definition did_entry_str (e : bytes * did_entry) : bytes :=
+  to_hex (fst e) ++ b "=" ++ print_dec (en_seq (snd e)) ++ b ":" ++
+  match en_doc (snd e) with Some d => doc_str d | None => b "nil" end.
+
+Definition docref (st : dstate) (t : tok) : option (option did_doc) :=
+  if tok_is t "-" then Some None
+  else match lookup t (d_docs st) with Some d => Some (Some d) | None => None end.
+
+Definition did_msg_of_toks (st : dstate) (ts : list tok) : option base_msg :=
+  match ts with
+  | [kind; did; dref; vmid; sg; from] =>
+      match bytes_of_tok did, docref st dref, bytes_of_tok vmid, bytes_of_tok sg, bytes_of_tok from with
+      | Some did', Some doc, Some vmid', Some sg', Some from' =>
+          if tok_is kind "did.Create" then Some (BDid (DCreate did' doc vmid' sg' from'))
+          else if tok_is kind "did.Update" then Some (BDid (DUpdate did' doc vmid' sg' from'))
+          else None
+      | _, _, _, _, _ => None
+      end
+  | [kind; did; vmid; sg; from] =>
+      if tok_is kind "did.Deactivate" then
+        match map_opt bytes_of_tok [did; vmid; sg; from] with
+        | Some [did'; vmid'; sg'; from'] => Some (BDid (DDeactivate did' vmid' sg' from'))
+        | _ => None
+        end
+      else None
+  | _ => None
+  end.
+
 (** ** chain commands *)
+(** the ideal signature scheme of the correspondence: a signature verifies exactly when the harness
+    produced it with that key over those bytes (table SIGT, filled by the real secp256k1 code) *)
+Definition verify_of (st : dstate) (pk msg sg : bytes) : bool :=
+  existsb (fun e => bytes_eqb (fst e) pk && bytes_eqb (fst (snd e)) msg && bytes_eqb (snd (snd e)) sg) (d_sigs st).
+
 Definition env_of (st : dstate) : env :=
-  {| e_unbech := unbech_of st; e_now := d_now st; e_fee_collector := d_fee_collector st; e_blocked := d_blocked st |}.
+  {| e_unbech := unbech_of st; e_now := d_now st; e_fee_collector := d_fee_collector st; e_blocked := d_blocked st;
+     e_b58key := fun s => lookup s (d_keys58 st); e_verify := verify_of st |}.
 
 Definition coin_of_tok (t : tok) : option coin :=
   match split_on ":"%byte t with
@@ -249,6 +413,18 @@ Definition dump_entry (e : bytes * aol_val) : bytes :=
 Definition q_cmd (st : dstate) (ts : list tok) : list bytes :=
   let e := env_of st in
   match ts with
+  | [kind; did] =>
+      if tok_is kind "did.DID" then
+        match bytes_of_tok did with
+        | Some d =>
+            match q_did (c_did (d_chain st)) d with
+            | DFound doc seq => [join_toks [b "Q"; b "ok"; print_dec seq; doc_str doc]]
+            | DNotFound => [b "Q err 5 notfound"]
+            | DDeactivated => [b "Q err 5 deactivated"]
+            end
+        | None => bad
+        end
+      else bad
   | kind :: args =>
       match map_opt bytes_of_tok (firstn 2 args), skipn 2 args with
       | Some [o; t], rest =>
@@ -312,7 +488,7 @@ Definition chain_cmd (st : dstate) (cmd : tok) (args : list tok) : option (dstat
     | _ => Some (st, bad)
     end
   else if tok_is cmd "M" then
-    match d_tx st, base_msg_of_toks2 args with
+    match d_tx st, (match did_msg_of_toks st args with Some m => Some m | None => base_msg_of_toks2 args end) with
     | Some p, Some m =>
         match p_exec p with
         | Some (g, inner) =>
@@ -360,6 +536,8 @@ Definition chain_cmd (st : dstate) (cmd : tok) (args : list tok) : option (dstat
     | [which] =>
         if tok_is which "aol" then
           Some (st, [join_toks [b "D"; b "aol"; join_with ";"%byte (map dump_entry (c_aol (d_chain st)))]])
+        else if tok_is which "did" then
+          Some (st, [join_toks [b "D"; b "did"; join_with ";"%byte (map did_entry_str (c_did (d_chain st)))]])
         else Some (st, bad)
     | _ => Some (st, bad)
     end
@@ -393,7 +571,11 @@ Definition step_line (st : dstate) (ts : list tok) : dstate * list bytes :=
       else if tok_is cmd "CK" then (st, ck_cmd st args)
       else match chain_cmd st cmd args with
            | Some r => r
-           | None => (st, bad)
+           | None =>
+               match doc_cmd st cmd args with
+               | Some r => r
+               | None => match did_table_cmd st cmd args with Some r => r | None => (st, bad) end
+               end
            end
   end.
 
